@@ -81,4 +81,19 @@ PROPS = {
         "assumptions": ["the set of implemented opset versions is read from opset.go by probing ResolveOperatorGetter over versions -2..40"],
         "explain": {"C18_load": "Eval vm_compute in (load supported_opsets {| m_inits := lc_inits the_case; m_opsets := lc_opsets the_case |}, holds supported_opsets the_case, map init_status_of (lc_inits the_case))."},
     },
+    "C02": {
+        "check_modules": ["theories/Check/CheckC02.v"],
+        "theorem": "C02_*",
+        "trusted_base": COMMON_TB + ["hook: /repo/verif_hooks.go (build tag verif) exposes Model.parameters read-only"],
+        "assumptions": ["purity of the Go operators cannot be proved from a hand-written model: it is what the effect and history streams observe; the theorems take it as the premise pure_ops"],
+        "explain": {"C02_effects": "Eval vm_compute in (intact the_case, oc_ins the_case, oc_after the_case)."},
+    },
+    "C17": {
+        "race": True,
+        "check_modules": [],
+        "theorem": "C17_interleaving_independent",
+        "trusted_base": COMMON_TB + ["the Go race detector (go build -race) for the runtime half"],
+        "assumptions": ["a data race is a property of the Go memory model and of gorgonia's global pools; no executable Gallina model exhibits it: the theorem covers the logical half (no Run writes state another Run reads, under pure_ops), the runtime half is explored under the race detector"],
+        "explain": {},
+    },
 }
